@@ -14,19 +14,24 @@
      (parse_core does not read inside atoms); C07_print_parse_exact: = Some f when the atoms of f are
      already text; C07_unparse_parse_idempotent: unparse (parse_core (unparse f)) = unparse f.
    - C07_lex_layout: the layout lemma by itself (any indentation of the lines of unp f lexes to toks f).
+   - C07_print_parse_nary (Logic/ParseCoreNary.v): N-ARY and/or (every connective with >= 2 children, in
+     every nesting position): parse_core (unparse f) = Some (opaque (binl f)), binl = the left-nested BINARY
+     tree the real parser builds for a chain `(a and b and c)`; C07_print_parse_nary_eq: that result is equal
+     to f (atoms as text) up to the flattening that Formula.__eq__ applies (flat = split_conjunction /
+     split_disjunction normal form): parse_core (unparse f) is `==`-equal to f.  C07_binl_binary: on the binary
+     fragment binl is the identity (the n-ary theorem contains C07_print_parse).
+   - C07_escape_roundtrip (Logic/UnparseEsc.v, UnparseHex.v): the string-literal round trip under the EXACT
+     guard of the recorded class,  K_str s = false -> read_lit (str_lit s ++ rest) = Some (s, rest):
+     quotes, control characters, NUL (printed \u{} and repaired to \u{0}), characters 256..0x2FFFF (\u{hex},
+     the hex digits checked for every code point of the range), a backslash before `u` (\u{5c}) and every
+     harmless backslash (not before a quote, not last).  With the two refutations both halves of K_str are
+     necessary: the guard is the weakest possible of this form.
    STILL PARTIAL / NOT PROVED:
-   - print_parse outside wf_core: match expressions, n-ary connectives (the real parser builds binary
-     ones), `not` over non-predicates (Formula.__neg__ rewrites), atoms that are not of the form `(op …)`
-     (`true`, a lone variable), the inside of SMT atoms (smt_str is not inverted; string literals
-     are covered separately by the escape round trip), the simplifications of __and__/__or__.
-   - C07_escape_roundtrip (guard as strong as the recorded defect class):
-       forall s rest, K_str s = false -> read_lit (str_lit s ++ rest) = Some (s, rest)
-     proved below for `safe` strings (C07_escape_roundtrip_safe_partial: all characters 1..127 except
-     the backslash, i.e. printable ASCII INCLUDING the quote, control characters, newline, DEL; `safe`
-     implies K_str = false) and, older, for `plain` strings; still only exercised by
-     escape_roundtrip_samples (computation) and the literal cases of the check: NUL and characters
-     >= 256 (printed as \u{..}), harmless backslashes (not before a quote / the end). *)
-From ISLA Require Import Unparse UnparseFacts UnparseMore ParseCore ParseCoreFacts ParseCoreMore.
+   - print_parse outside wf_core / wf_coreN: match expressions (bound elements, terminals, optionals),
+     `not` over non-predicates (Formula.__neg__ rewrites), atoms that are not of the form `(op …)`
+     (`true`, `false`, a lone variable), the inside of SMT atoms (smt_str is not inverted; string literals
+     are covered separately by the escape round trip), the simplifications of __and__/__or__. *)
+From ISLA Require Import Unparse UnparseFacts UnparseMore UnparseHex UnparseEsc ParseCore ParseCoreFacts ParseCoreMore ParseCoreNary.
 From Coq Require Import String.
 Open Scope N_scope.
 
@@ -165,3 +170,55 @@ Example C07_escape_roundtrip_safe_nonvacuous :
   read_lit (str_lit [97; 34; 98; 10; 9; 127; 34; 34] ++ [41]) = Some ([97; 34; 98; 10; 9; 127; 34; 34], [41]).
 Proof. exact escape_roundtrip_safe_nonvacuous. Qed.
 Print Assumptions C07_escape_roundtrip_safe_nonvacuous.
+
+(* ---------- string literals: the exact guard of the recorded class ---------- *)
+(* everything outside K_str round-trips: quotes, control characters, NUL, characters 256..0x2FFFF,
+   a backslash before `u`, harmless backslashes *)
+Theorem C07_escape_roundtrip : forall s rest,
+  K_str s = false -> read_lit (str_lit s ++ rest) = Some (s, rest).
+Proof. exact escape_roundtrip_exact. Qed.
+Print Assumptions C07_escape_roundtrip.
+
+(* the hex digits Z3_get_lstring prints are read back by zstring's brace escape, for every code point *)
+Theorem C07_hex_roundtrip : forall c r, 0 < c -> c <= 196607 ->
+  read_hex 5 0 (hex_N c ++ c_rb :: r) = Some (c, r).
+Proof. exact hex_roundtrip. Qed.
+Print Assumptions C07_hex_roundtrip.
+
+Example C07_escape_roundtrip_nonvacuous :
+  let s := [0; 92; 110; 92; 117; 123; 125; 34; 256; 92; 0; 196607; 92; 92; 97; 127; 92; 256] in
+  K_str s = false /\ safe s = false /\ read_lit (str_lit s ++ [41]) = Some (s, [41]) /\
+  str_lit s = lit """\u{0}\n\u{5c}u{}\""\u{100}\\u{0}\u{2ffff}\\a" ++ [127] ++ lit "\\u{100}""".
+Proof. exact escape_roundtrip_exact_nonvacuous. Qed.
+Print Assumptions C07_escape_roundtrip_nonvacuous.
+
+(* ---------- print / parse round trip with n-ary connectives ---------- *)
+Theorem C07_print_parse_nary : forall f, wf_coreN f -> parse_core (unparse f) = Some (opaque (binl f)).
+Proof. exact print_parseN. Qed.
+Print Assumptions C07_print_parse_nary.
+
+(* left-nesting does not change the constraint up to Formula.__eq__ (flattened conjunctions/disjunctions) *)
+Theorem C07_binl_flat : forall f, flat (binl f) = flat f.
+Proof. exact flat_binl. Qed.
+Print Assumptions C07_binl_flat.
+
+Theorem C07_print_parse_nary_eq : forall f, wf_coreN f ->
+  exists g, parse_core (unparse f) = Some g /\ flat g = flat (opaque f).
+Proof. exact print_parseN_flat. Qed.
+Print Assumptions C07_print_parse_nary_eq.
+
+Theorem C07_binl_binary : forall f, wf_shapeb f = true -> binl f = f.
+Proof. exact binl_id. Qed.
+Print Assumptions C07_binl_binary.
+
+(* the n-ary layout lemma: any indentation of the lines of an n-ary constraint lexes to toksN f *)
+Theorem C07_lex_layout_nary : forall f, wf_shapeNb f = true ->
+  forall n m rest, lexm (MW []) (join [10] (padfm n m (unp f)) ++ rest) = omap (toksN f) (lexm (MW []) rest).
+Proof. exact (fun f H n m => proj2 (lex_unpN f H) n m). Qed.
+Print Assumptions C07_lex_layout_nary.
+
+Example C07_print_parse_nary_nonvacuous :
+  wf_coreN ppN_ex /\ wf_shapeb ppN_ex = false /\ binl ppN_ex <> ppN_ex /\
+  parse_core (unparse ppN_ex) = Some (opaque (binl ppN_ex)) /\ flat (opaque (binl ppN_ex)) = flat (opaque ppN_ex).
+Proof. exact print_parseN_nonvacuous. Qed.
+Print Assumptions C07_print_parse_nary_nonvacuous.
